@@ -312,3 +312,152 @@ Theorem C13_real_labels : forall (u : acc3) (name : bytes) (line : nat),
 Proof. exact render_lbl_real. Qed.
 Print Assumptions C13_reader_label_irrelevant.
 Print Assumptions C13_real_labels.
+
+
+(* ====================================================================================================================
+   The number of context lines is PRESENTATION.
+
+   [report_of_script_n n] / [unified_of_script_n n] print a script with n unchanged lines around each change (the code
+   uses n = context = 3; [report_of_script] / [unified_of_script] above are these functions at n = context, by
+   computation). The statements hold for EVERY n - no hypothesis on n, n = 0 included: grouping with any n keeps every
+   changed line ([C13_script_hunks_keep_changes]), so n only decides which unchanged lines are shown and where hunks are
+   cut. A library showing 5 lines of context keeps the property.
+   (String is imported above: [List.concat] is written in full below.)
+   ==================================================================================================================== *)
+
+Theorem C13_script_n_is_context : forall (a b : bytes) (ops : list opcode) (name : bytes) (line : nat),
+  report_of_script_n context a b ops name line = report_of_script a b ops name line /\
+  unified_of_script_n context (split_newlines a) (split_newlines b) ops
+  = unified_of_script (split_newlines a) (split_newlines b) ops.
+Proof. intros. split; [exact (report_of_script_n_context a b ops name line)|exact (unified_of_script_n_context _ _ ops)]. Qed.
+Print Assumptions C13_script_n_is_context.
+
+(* empty iff byte-identical *)
+Theorem C13_script_n_empty_iff : forall (n : nat) (a b : bytes) (ops : list opcode) (name : bytes) (line : nat),
+  valid_script (split_newlines a) (split_newlines b) ops = true ->
+  (report_of_script_n n a b ops name line = [] <-> a = b).
+Proof. exact report_of_script_n_empty_iff. Qed.
+Print Assumptions C13_script_n_empty_iff.
+
+(* header counts = lines shown (any script at all) *)
+Theorem C13_script_n_counts : forall (n : nat) (al bl : list bytes) (ops : list opcode),
+  r_ins (unified_of_script_n n al bl ops) = count_ins (r_lines (unified_of_script_n n al bl ops)) /\
+  r_del (unified_of_script_n n al bl ops) = count_del (r_lines (unified_of_script_n n al bl ops)).
+Proof. exact script_counts_n. Qed.
+Print Assumptions C13_script_n_counts.
+
+(* every `-` line is a stored line, every `+` line a received line (any script at all) *)
+Theorem C13_script_n_lines_truthful : forall (n : nat) (al bl : list bytes) (ops : list opcode) (l : bytes),
+  (In (RDel l) (r_lines (unified_of_script_n n al bl ops)) -> In l al) /\
+  (In (RIns l) (r_lines (unified_of_script_n n al bl ops)) -> In l bl).
+Proof. exact script_lines_truthful_n. Qed.
+Print Assumptions C13_script_n_lines_truthful.
+
+(* taking the `-` lines out of the stored text and the `+` lines out of the received text leaves the same lines *)
+Theorem C13_script_n_residual : forall (n : nat) (a b : bytes) (ops : list opcode),
+  let al := split_newlines a in
+  let bl := split_newlines b in
+  valid_script al bl ops = true ->
+  al = List.concat (map (fun c => kept_a_of al c ++ deleted_of al c)%list ops) /\
+  bl = List.concat (map (fun c => kept_a_of al c ++ inserted_of bl c)%list ops) /\
+  map (kept_a_of al) ops = map (kept_b_of bl) ops /\
+  del_lines (r_lines (unified_of_script_n n al bl ops)) = List.concat (map (deleted_of al) ops) /\
+  ins_lines (r_lines (unified_of_script_n n al bl ops)) = List.concat (map (inserted_of bl) ops).
+Proof. exact script_residual_n. Qed.
+Print Assumptions C13_script_n_residual.
+
+(* no escape byte is added *)
+Theorem C13_script_n_no_escape : forall (n : nat) (a b : bytes) (ops : list opcode) (name : bytes) (line : nat),
+  ~ In 27%N (a ++ b ++ name)%list -> ~ In 27%N (report_of_script_n n a b ops name line).
+Proof. exact report_of_script_n_no_esc_In. Qed.
+Print Assumptions C13_script_n_no_escape.
+
+(* the PRINTED BYTES carry the structure, for every n *)
+Theorem C13_script_n_report_readable : forall (n : nat) (a b : bytes) (ops : list opcode) (name : bytes) (line : nat),
+  let al := split_newlines a in
+  let bl := split_newlines b in
+  valid_script al bl ops = true -> a <> b -> name_ok name = true ->
+  read_report (report_of_script_n n a b ops name line) =
+  Some {| rr_del_count := r_del (unified_of_script_n n al bl ops);
+          rr_ins_count := r_ins (unified_of_script_n n al bl ops);
+          rr_lines := r_lines (unified_of_script_n n al bl ops);
+          rr_footer := match name with [] => None | _ :: _ => Some (name, line) end |}.
+Proof. exact read_report_of_script_n. Qed.
+Print Assumptions C13_script_n_report_readable.
+
+Theorem C13_script_n_printed_counts : forall (n : nat) (a b : bytes) (ops : list opcode) (name : bytes) (line : nat),
+  valid_script (split_newlines a) (split_newlines b) ops = true -> a <> b -> name_ok name = true ->
+  exists rr, read_report (report_of_script_n n a b ops name line) = Some rr /\
+             rr_del_count rr = count_del (rr_lines rr) /\ rr_ins_count rr = count_ins (rr_lines rr).
+Proof. exact script_printed_counts_n. Qed.
+Print Assumptions C13_script_n_printed_counts.
+
+Theorem C13_script_n_printed_lines_truthful : forall (n : nat) (a b : bytes) (ops : list opcode) (name : bytes) (line : nat),
+  valid_script (split_newlines a) (split_newlines b) ops = true -> a <> b -> name_ok name = true ->
+  exists rr, read_report (report_of_script_n n a b ops name line) = Some rr /\
+             (forall l, In (RDel l) (rr_lines rr) -> In l (split_newlines a)) /\
+             (forall l, In (RIns l) (rr_lines rr) -> In l (split_newlines b)).
+Proof. exact script_printed_lines_truthful_n. Qed.
+Print Assumptions C13_script_n_printed_lines_truthful.
+
+Theorem C13_script_n_printed_residual : forall (n : nat) (a b : bytes) (ops : list opcode) (name : bytes) (line : nat),
+  let al := split_newlines a in
+  let bl := split_newlines b in
+  valid_script al bl ops = true -> a <> b -> name_ok name = true ->
+  exists rr, read_report (report_of_script_n n a b ops name line) = Some rr /\
+    al = List.concat (map (fun c => kept_a_of al c ++ deleted_of al c)%list ops) /\
+    bl = List.concat (map (fun c => kept_a_of al c ++ inserted_of bl c)%list ops) /\
+    map (kept_a_of al) ops = map (kept_b_of bl) ops /\
+    del_lines (rr_lines rr) = List.concat (map (deleted_of al) ops) /\
+    ins_lines (rr_lines rr) = List.concat (map (inserted_of bl) ops).
+Proof. exact script_printed_residual_n. Qed.
+Print Assumptions C13_script_n_printed_residual.
+
+(* two reports with the same bytes - printed from whatever valid scripts with whatever numbers of context lines - show
+   the same lines and counts *)
+Theorem C13_script_n_printed_injective : forall n a b ops name line n' a' b' ops' name' line',
+  valid_script (split_newlines a) (split_newlines b) ops = true ->
+  valid_script (split_newlines a') (split_newlines b') ops' = true ->
+  a <> b -> name_ok name = true -> name_ok name' = true ->
+  report_of_script_n n a b ops name line = report_of_script_n n' a' b' ops' name' line' ->
+  unified_of_script_n n (split_newlines a) (split_newlines b) ops
+  = unified_of_script_n n' (split_newlines a') (split_newlines b') ops' /\
+  name = name' /\ (name <> [] -> line = line').
+Proof. exact script_printed_injective_n. Qed.
+Print Assumptions C13_script_n_printed_injective.
+
+(* non-vacuity, on the 202-line pair and the script a matcher without auto-junk gives: 3 and 5 lines of context give
+   different reports (same counts, same `-`/`+` lines, 13 resp. 15 shown lines), each reads back to its own structure;
+   n = 0 shows the changes only and is still readable *)
+Example C13_context_is_presentation :
+  let f := B "f.snap"%string in
+  valid_script ex_al ex_bl ex_hand = true /\
+  report_of_script_n 3 ex_a ex_b ex_hand f 1 = report_of_script ex_a ex_b ex_hand f 1 /\
+  report_of_script_n 3 ex_a ex_b ex_hand f 1 <> report_of_script_n 5 ex_a ex_b ex_hand f 1 /\
+  read_report (report_of_script_n 3 ex_a ex_b ex_hand f 1) = Some (report_read_of (unified_of_script_n 3 ex_al ex_bl ex_hand) f 1) /\
+  read_report (report_of_script_n 5 ex_a ex_b ex_hand f 1) = Some (report_read_of (unified_of_script_n 5 ex_al ex_bl ex_hand) f 1) /\
+  read_report (report_of_script_n 0 ex_a ex_b ex_hand f 1) = Some (report_read_of (unified_of_script_n 0 ex_al ex_bl ex_hand) f 1) /\
+  List.length (r_lines (unified_of_script_n 3 ex_al ex_bl ex_hand)) = 13 /\
+  List.length (r_lines (unified_of_script_n 5 ex_al ex_bl ex_hand)) = 15 /\
+  List.length (r_lines (unified_of_script_n 0 ex_al ex_bl ex_hand)) = 6 /\
+  del_lines (r_lines (unified_of_script_n 3 ex_al ex_bl ex_hand)) = del_lines (r_lines (unified_of_script_n 5 ex_al ex_bl ex_hand)) /\
+  ins_lines (r_lines (unified_of_script_n 3 ex_al ex_bl ex_hand)) = ins_lines (r_lines (unified_of_script_n 5 ex_al ex_bl ex_hand)) /\
+  (r_del (unified_of_script_n 3 ex_al ex_bl ex_hand), r_ins (unified_of_script_n 3 ex_al ex_bl ex_hand)) = (2, 2) /\
+  (r_del (unified_of_script_n 5 ex_al ex_bl ex_hand), r_ins (unified_of_script_n 5 ex_al ex_bl ex_hand)) = (2, 2) /\
+  (r_del (unified_of_script_n 0 ex_al ex_bl ex_hand), r_ins (unified_of_script_n 0 ex_al ex_bl ex_hand)) = (2, 2).
+Proof. vm_compute. repeat split; discriminate. Qed.
+
+(* non-vacuity: every theorem of this file that has hypotheses has a concrete, non-trivial instance meeting ALL of them
+   (lemmas <Theorem>_witness / <Theorem>_applied in Proofs/WitnessesP.v); a representative one is restated here *)
+From Snaps Require Import Proofs.WitnessesP.
+Example C13_witnesses :
+  valid_script w13_al w13_bl w13_hand = true /\ w13_hand <> get_opcodes w13_al w13_bl /\
+  w13_a <> w13_b /\ name_ok w13_name = true /\
+  get_opcodes w13_al w13_bl = app w13_l1 (cons w13_c (cons w13_d w13_l2)) /\
+  w13_hand = app w13_hl1 (cons w13_hc (cons w13_hd w13_hl2)) /\
+  pretty_diff_nocolor w13_a w13_b w13_name w13_line = pretty_diff_nocolor w13_a2 w13_b2 w13_name w13_line /\
+  w13_a <> w13_a2 /\ w13_b <> w13_b2 /\
+  ~ In w13_esc (app w13_a (app w13_b w13_name)) /\
+  label_ok w13_ld = true /\ label_ok w13_li = true /\ Forall rline_wf (r_lines w13_u_free) /\
+  r_lines w13_u_free <> nil.
+Proof. exact C13_witnesses_all. Qed.
